@@ -141,6 +141,57 @@ def run(repo_path, props=None, jobs=16, verbose=False, ids=None):
     return {'variants': len(work), 'evaluations': n, 'skipped': skipped, 'bad': bad, 'wall': time.time() - t0}
 
 
+def _seed_job(args):
+    sid, pid, repo_path, want_rules = args
+    import subprocess
+    sys.path.insert(0, VERIF)
+    from sa.main import run_property
+    d = make_copy(repo_path)
+    try:
+        r = subprocess.run(['patch', '-p1', '-s', '-f', '-d', d, '-i', os.path.join(VERIF, 'seeded', sid, 'patch.diff')],
+                           capture_output=True, text=True)
+        if r.returncode != 0:
+            return sid, None, []
+        buf = io.StringIO()
+        code = run_property(pid, d, 'quick', write_evidence=False, out=buf)
+        rules_hit = sorted(set(line.split(' [VIOLATION]')[0].split()[-1] for line in buf.getvalue().splitlines() if '[VIOLATION]' in line))
+        return sid, code, rules_hit
+    finally:
+        shutil.rmtree(d, ignore_errors=True)
+
+
+def run_seeds(pid, repo_path, jobs=16):
+    """the stored independent seeds (seeded/*/meta.json) that this property's check is recorded to report: each is
+    applied to a scratch copy and must still be reported (a seed whose patch no longer applies is skipped)"""
+    work = []
+    base = os.path.join(VERIF, 'seeded')
+    for sid in sorted(os.listdir(base)) if os.path.isdir(base) else []:
+        mp = os.path.join(base, sid, 'meta.json')
+        if not os.path.exists(mp):
+            continue
+        with open(mp) as f:
+            meta = json.load(f)
+        if pid in (meta.get('detected_by') or {}):
+            work.append((sid, pid, repo_path, meta['detected_by'][pid]))
+    if not work:
+        return {'seeds': 0, 'reported': 0, 'skipped': 0, 'bad': []}
+    if jobs > 1 and len(work) > 1:
+        import multiprocessing
+        with multiprocessing.Pool(min(jobs, len(work))) as pool:
+            res = pool.map(_seed_job, work, chunksize=1)
+    else:
+        res = [_seed_job(w) for w in work]
+    bad, skipped, rep = [], 0, 0
+    for sid, code, rules_hit in res:
+        if code is None:
+            skipped += 1
+        elif code == 1:
+            rep += 1
+        else:
+            bad.append((sid, code))
+    return {'seeds': len(work), 'reported': rep, 'skipped': skipped, 'bad': bad}
+
+
 def run_for_property(pid, repo_path):
     """thorough tier: the checker's own validation; a failure means the
     checker cannot be trusted -> ANALYSIS-ERROR (exit 2), never a VIOLATION"""
@@ -150,7 +201,19 @@ def run_for_property(pid, repo_path):
     for vid, p, x in res['bad']:
         print('ANALYSIS-ERROR property=%s rule=selftest reason=variant %s: wanted %s got %s (rules %s)'
               % (pid, vid, x['want'], x['got'], ','.join(x['rules_hit'])))
-    return 2 if res['bad'] else 0
+    sr = run_seeds(pid, repo_path)
+    print('== seeded changes %s: %d recorded as reported by this check, %d reported again, %d skipped (patch no longer applies), %d no longer reported'
+          % (pid, sr['seeds'], sr['reported'], sr['skipped'], len(sr['bad'])))
+    for sid, code in sr['bad']:
+        print('ANALYSIS-ERROR property=%s rule=selftest reason=seeded change %s is no longer reported (exit %s)' % (pid, sid, code))
+    LAST.clear()
+    LAST.update({'corpus_variants': res['variants'], 'corpus_evaluations': res['evaluations'], 'corpus_skipped': res['skipped'],
+                 'corpus_wrong': len(res['bad']), 'seeds_recorded': sr['seeds'], 'seeds_reported': sr['reported'],
+                 'seeds_skipped': sr['skipped'], 'seeds_not_reported': [b[0] for b in sr['bad']]})
+    return 2 if (res['bad'] or sr['bad']) else 0
+
+
+LAST = {}
 
 
 if __name__ == '__main__':
